@@ -135,6 +135,77 @@ func checkC06(p *Prog, r *Report) {
 	tokenBased(p, r, "C06.token-based")
 	boundedRecursion(p, r, "C06.bounded-recursion")
 	c06IdentifierToken(p, r)
+	resultThreading(p, r, "C06.result-threading", "parser")
+	c06TokenExamined(p, r, "C06.token-examined")
+}
+
+// c06TokenExamined: a sub-parser returns the token that follows what it consumed.  That token has
+// already been taken from the lexer: a caller that overwrites it without looking at it has skipped
+// one token of the statement unseen (whatever it was: a missing ':', a function name).
+func c06TokenExamined(p *Prog, r *Report, rule string) {
+	r.Rule(rule, "the 'next token' a sub-parser returns is examined by its caller (compared, passed on or returned) before it is overwritten: a token dropped unseen lets an unparsable statement through and hides what stood in its place")
+	lex := p.Named("parser", "lexer")
+	tokT := p.Pkg("parser").Pkg.Scope().Lookup("token")
+	if tokT == nil {
+		fatalf("rule %s: type parser.token not found", rule)
+	}
+	var bad []string
+	n := 0
+	for _, fn := range p.ScopedFuncs("parser") {
+		if isGeneratedLexer(fn) {
+			continue
+		}
+		eachCall(fn, func(c ssa.CallInstruction) {
+			callee := c.Common().StaticCallee()
+			call, isCall := c.(*ssa.Call)
+			if callee == nil || !isCall || !p.InRepo(callee) || recvNamed(callee) == lex {
+				return
+			}
+			res := callee.Signature.Results()
+			if res.Len() < 2 {
+				return
+			}
+			takesLexer := false
+			for _, par := range callee.Params {
+				if namedOf(par.Type()) == lex {
+					takesLexer = true
+				}
+			}
+			if !takesLexer {
+				return
+			}
+			for i := 0; i < res.Len(); i++ {
+				if !types.Identical(res.At(i).Type(), tokT.Type()) {
+					continue
+				}
+				n++
+				used := false
+				for _, ref := range *call.Referrers() {
+					ex, ok := ref.(*ssa.Extract)
+					if !ok || ex.Index != i {
+						// the whole tuple returned as it is
+						if _, isRet := ref.(*ssa.Return); isRet {
+							used = true
+						}
+						continue
+					}
+					for _, r2 := range *ex.Referrers() {
+						if _, dbg := r2.(*ssa.DebugRef); !dbg {
+							used = true
+						}
+					}
+				}
+				if !used && rewoundAfter(p, lex, c) {
+					continue // the lexer is rewound afterwards: nothing stays consumed
+				}
+				if !used {
+					bad = append(bad, fmt.Sprintf("%s: %s drops the token returned by %s without examining it: one token of the statement is skipped unseen", p.Pos(c.Pos()), fn.Name(), callee.Name()))
+				}
+			}
+		})
+	}
+	r.count("subparser_token_results", n)
+	r.check(len(bad) == 0 && n >= 10, rule, "sub-parser call sites", "", fmt.Sprintf("%d returned tokens, all examined", n), strings.Join(dedupe(bad), " || "))
 }
 
 // c06IdentifierToken: the lexer keeps the text of the LAST identifier it saw; it is not cleared
@@ -698,17 +769,27 @@ func c06Lwt(p *Prog, r *Report, fam map[*ssa.Function]bool) {
 	}
 	// the terminator set contains end of input
 	term := p.Func("parser", "isDMLTerminator")
-	tkEOF := p.constOf("parser", "tkEOF").ExactString()
+	// (decided by evaluating the predicate on the end-of-input token, whatever form its set takes)
 	hasEOF := false
-	eachInstr(term, func(in ssa.Instruction) {
-		if bo, ok := in.(*ssa.BinOp); ok && bo.Op == token.EQL {
-			for _, side := range []ssa.Value{bo.X, bo.Y} {
-				if c, ok := side.(*ssa.Const); ok && c.Value != nil && c.Value.ExactString() == tkEOF {
-					hasEOF = true
+	{
+		s := newSim(p)
+		s.Inline = func(f *ssa.Function) bool { return p.InRepo(f) && f.Pkg == term.Pkg }
+		init := newState()
+		if len(term.Params) == 1 {
+			init.vals[term.Params[0]] = avC(p.constOf("parser", "tkEOF"))
+			n, allTrue := 0, true
+			for _, o := range s.Run(term, init) {
+				if o.Panic {
+					continue
+				}
+				n++
+				if b, known := o.Ret.isBool(); !known || !b {
+					allTrue = false
 				}
 			}
+			hasEOF = n > 0 && allTrue
 		}
-	})
+	}
 	r.check(hasEOF, rule, "parser.isDMLTerminator", p.Pos(term.Pos()), "", "end of input is not a statement terminator: the IF scan would never end")
 }
 
@@ -930,7 +1011,6 @@ func c06LexerRewind(p *Prog, r *Report) {
 	r.check(len(bad) == 0, rule, "parser.lexer.mark/rewind", p.Pos(rewind.Pos()), fmt.Sprintf("%d fields saved and restored", len(written)), strings.Join(bad, " || "))
 }
 
-
 // isGeneratedLexer: the ragel-generated scanner function (trusted generated component).
 func isGeneratedLexer(fn *ssa.Function) bool {
 	return fn.Name() == "next" && recvNamed(fn) != nil && recvNamed(fn).Obj().Name() == "lexer"
@@ -981,6 +1061,77 @@ func boundedRecursion(p *Prog, r *Report, rule string) {
 			guards[f] = true
 		}
 	}
+	// the counter the guards count in: written by the guards, by their decrementing counterparts
+	// and where a lexer is set up; never restored together with the position (a whole-struct copy
+	// of the lexer taken before a guard and assigned back after it undoes the guard's increment)
+	depthFields := map[*types.Var]bool{}
+	for g := range guards {
+		eachInstr(g, func(in ssa.Instruction) {
+			if st, ok := in.(*ssa.Store); ok {
+				if fa, ok := st.Addr.(*ssa.FieldAddr); ok {
+					if bo, ok := st.Val.(*ssa.BinOp); ok && bo.Op == token.ADD {
+						if lf, _ := loadedField(bo.X); lf == fieldOfAddr(fa) {
+							depthFields[lf] = true
+						}
+					}
+				}
+			}
+		})
+	}
+	var cb []string
+	nw := 0
+	for f := range inScope {
+		f := f
+		eachInstr(f, func(in ssa.Instruction) {
+			st, ok := in.(*ssa.Store)
+			if !ok {
+				return
+			}
+			if fa, ok := st.Addr.(*ssa.FieldAddr); ok && depthFields[fieldOfAddr(fa)] {
+				nw++
+				if guards[f] {
+					return
+				}
+				// the counterpart: counter = counter - 1
+				if bo, ok := st.Val.(*ssa.BinOp); ok && bo.Op == token.SUB {
+					if lf, _ := loadedField(bo.X); lf == fieldOfAddr(fa) {
+						if one, ok := constInt(bo.Y); ok && one == 1 {
+							return
+						}
+					}
+				}
+				// set-up: a constant zero
+				if k, ok := constInt(st.Val); ok && k == 0 {
+					return
+				}
+				cb = append(cb, fmt.Sprintf("%s: %s writes the nesting counter %s outside the depth guard and its counterpart", p.Pos(st.Pos()), f.Name(), fieldOfAddr(fa).Name()))
+				return
+			}
+			// whole-struct assignment through a pointer to the type that holds the counter
+			pt, ok := st.Addr.Type().Underlying().(*types.Pointer)
+			if !ok {
+				return
+			}
+			stt, ok := pt.Elem().Underlying().(*types.Struct)
+			if !ok {
+				return
+			}
+			holds := false
+			for i := 0; i < stt.NumFields(); i++ {
+				if depthFields[stt.Field(i)] {
+					holds = true
+				}
+			}
+			if !holds {
+				return
+			}
+			if al, ok := st.Addr.(*ssa.Alloc); ok && al.Parent() == f {
+				return // a local copy being made (a snapshot), not a restore
+			}
+			cb = append(cb, fmt.Sprintf("%s: %s assigns a whole %s (position and nesting counter together): a snapshot taken before a depth guard and restored after it undoes the guard's count, so the nesting is no longer bounded", p.Pos(st.Pos()), f.Name(), namedOf(pt.Elem()).Obj().Name()))
+		})
+	}
+	r.check(len(cb) == 0 && len(depthFields) > 0 && nw > 0, rule, "nesting counter", "", fmt.Sprintf("%d writes of the counter, all by the guard and its counterpart", nw), strings.Join(dedupe(cb), " || "))
 	// an edge f -> g is guarded when the call is dominated by `guard() == nil`
 	guardedCall := func(c ssa.CallInstruction) bool {
 		for _, ct := range dominatingConds(c.Block()) {
@@ -1074,4 +1225,66 @@ func boundedRecursion(p *Prog, r *Report, rule string) {
 		detail = "recursion whose depth only the input bounds (a statement nested a few million levels deep overflows the goroutine stack, which terminates the process): " + strings.Join(cycles, " ; ")
 	}
 	r.check(len(cycles) == 0, rule, "parser call graph", "", fmt.Sprintf("%d functions, %d calls among them, %d behind a depth guard, %d guard function(s)", len(inScope), nEdges, nGuarded, len(guards)), detail)
+}
+
+// rewoundAfter: every path that continues after the call resets the lexer to a marked position
+// before it reads another token (a peek: what the call consumed does not stay consumed).
+func rewoundAfter(p *Prog, lex *types.Named, c ssa.CallInstruction) bool {
+	fn := c.Parent()
+	isLexCall := func(in ssa.Instruction, name string) bool {
+		cc, ok := in.(ssa.CallInstruction)
+		if !ok {
+			return false
+		}
+		callee := cc.Common().StaticCallee()
+		return callee != nil && recvNamed(callee) == lex && (name == "" || callee.Name() == name)
+	}
+	// walk forward from the call: a path is fine when it meets rewind() or leaves the function
+	// before any other call that takes the lexer
+	type pos struct {
+		b *ssa.BasicBlock
+		i int
+	}
+	seen := map[*ssa.BasicBlock]bool{}
+	var walk func(b *ssa.BasicBlock, from int) bool
+	walk = func(b *ssa.BasicBlock, from int) bool {
+		for i := from; i < len(b.Instrs); i++ {
+			in := b.Instrs[i]
+			if isLexCall(in, "rewind") {
+				return true
+			}
+			if cc, ok := in.(ssa.CallInstruction); ok {
+				takes := isLexCall(in, "")
+				for _, a := range cc.Common().Args {
+					if namedOf(a.Type()) == lex {
+						takes = true
+					}
+				}
+				if takes {
+					return false // the lexer is used again without a rewind
+				}
+			}
+			if _, ok := in.(*ssa.Return); ok {
+				return true
+			}
+		}
+		for _, s := range b.Succs {
+			if seen[s] {
+				continue
+			}
+			seen[s] = true
+			if !walk(s, 0) {
+				return false
+			}
+		}
+		return true
+	}
+	blk := c.Block()
+	for i, in := range blk.Instrs {
+		if in == ssa.Instruction(c) {
+			_ = fn
+			return walk(blk, i+1)
+		}
+	}
+	return false
 }
